@@ -230,7 +230,7 @@ impl World for Tok {
         let max = i.e.ledger().max_live_until_ledger();
         let th = self.thorough;
         let lives: Vec<u32> =
-            if th { vec![0, now - 1, now, now + 1, now + 3, max, max.saturating_add(1)] } else { vec![0, now - 1, now, now + 1, now + 3, max.saturating_add(1)] };
+            if th { vec![0, now - 1, now, now + 1, now + 3, max, max.saturating_add(1)] } else { vec![0, now - 1, now, now + 1, max.saturating_add(1)] };
         let pairs: Vec<(usize, usize)> = if th { vec![(0, 2), (1, 2), (0, 1), (1, 0), (2, 0), (0, 0)] } else { vec![(0, 2), (1, 2), (0, 1)] };
         let dedup = |xs: Vec<i128>| {
             let mut out: Vec<i128> = vec![];
@@ -533,8 +533,13 @@ fn main() {
         |tier: Tier, r: &mut Runner| {
             let th = tier == Tier::Thorough;
             for fl in [Flavour::Base, Flavour::AllowList, Flavour::BlockList, Flavour::Votes, Flavour::Rwa, Flavour::Vault] {
-                let d = if fl == Flavour::Vault { tier.pick(2, 3) } else { tier.pick(3, 4) };
-                r.world(&Tok { flavour: fl, thorough: th }, &Bounds::new(d, tier.pick(8, 150)));
+                // quick: depth 3 for the Base and RWA code paths, depth 2 (complete) for the others
+                let d = match fl {
+                    Flavour::Vault => tier.pick(2, 3),
+                    Flavour::Base | Flavour::Rwa => tier.pick(3, 4),
+                    _ => tier.pick(2, 4),
+                };
+                r.world(&Tok { flavour: fl, thorough: th }, &Bounds::new(d, tier.pick(20, 150)));
             }
             if let Some(rep) = r.report() {
                 rep.require(
